@@ -1,7 +1,7 @@
 (* glue for the correspondence files Cases_C14*.v written by harness/c14: constructors the harness
    prints and the comparison of the model's step with what the real application did. *)
 From Coq Require Import ZArith List Bool.
-From FxV Require Import model.M_Migrate model.M_MigrateSpec.
+From FxV Require Import model.M_Migrate model.M_MigrateSpec model.M_MigrateFollow.
 Import ListNotations.
 Open Scope Z_scope.
 
@@ -44,7 +44,17 @@ Inductive cop :=
 | CEndBlock (t next : Z) (burns : list Z)
 | CSubmit (a : addr) (amt : Z)
 | CDeposit (a : addr) (pid amt : Z)
-| CVote (a : addr) (pid : Z).
+| CVote (a : addr) (pid : Z)
+(* follow-up staking transactions; `ans` = what the validator side of the real chain answered *)
+| CDelegate (a v : addr) (amt : Z) (ans : vans)
+| CUndelegate (a v : addr) (shares : Z) (ans : vans)
+| CWithdraw (a v : addr) (ans : vans).
+
+Definition VA := Build_vans.
+Definition ask_obs (e : vans) (_ : query) : vans := e.
+Definition next_obs (e : vans) (_ : query) : vans := e.
+Definition drop_env (o : outcome (vans * state)) : outcome state :=
+  match o with Ok x => Ok (snd x) | Err e => Err e | Panic => Panic end.
 
 (* observed result class; codes of `err` in declaration order starting at 1 *)
 Inductive cobs := OOk | OErr (code : Z) | OPanic.
@@ -63,6 +73,9 @@ Definition model_step (s : state) (o : cop) : outcome state :=
   | CSubmit a amt => submit_proposal a amt s
   | CDeposit a pid amt => add_deposit pid a amt s
   | CVote a pid => cast_vote a pid s
+  | CDelegate a v amt ans => drop_env (f_delegate vans ask_obs next_obs ans s a v amt)
+  | CUndelegate a v sh ans => drop_env (f_undelegate vans ask_obs next_obs ans s a v sh)
+  | CWithdraw a v ans => drop_env (f_withdraw vans ask_obs next_obs ans s a v)
   end.
 
 (* ---------- equality of states as sets of records ---------- *)
@@ -133,7 +146,7 @@ Definition state_cmp (a b : state) : list bool :=
 Definition state_eqb (a b : state) : bool := forallb (fun x => x) (state_cmp a b).
 
 Definition mig_mismatch (c : mig_case) : bool :=
-  negb (wfb (mc_pre c) && qcoverb (mc_pre c) && govwfb (mc_pre c)) ||
+  negb (wfb (mc_pre c) && qcoverb (mc_pre c) && govwfb (mc_pre c) && balposb (mc_pre c)) ||
   match model_step (mc_pre c) (mc_op c), mc_obs c with
   | Ok s', OOk => negb (state_eqb s' (mc_post c))
   | Err e, OErr code => negb (err_code e =? code) || negb (state_eqb (mc_pre c) (mc_post c))
